@@ -42,6 +42,23 @@ def nprintVar (ty : Ty) (v : Option Val) : Bytes :=
   | .bool => if (match v with | some (.bool b) => b | _ => false) then bTrue else bFalse
   | _ => []
 
+/-- contains the end-of-comment marker `*/` -/
+def hasStarSlash : Bytes → Bool
+  | a :: b :: rest => (a == c_star && b == c_slash) || hasStarSlash (b :: rest)
+  | _ => false
+
+/-- the marker taken apart: `*/` becomes `* /` -/
+def apartMarker : Bytes → Bytes
+  | a :: b :: rest => if a == c_star && b == c_slash then c_star :: c_sp :: apartMarker (b :: rest) else a :: apartMarker (b :: rest)
+  | l => l
+
+/-- `cfg_print_comment`: a C comment; a line comment when the text contains `*/` (and no newline);
+otherwise the marker is taken apart -/
+def printComment (c : Bytes) : Bytes :=
+  if !hasStarSlash c then [c_slash, c_star, c_sp] ++ c ++ [c_sp, c_star, c_slash, c_nl]
+  else if !c.contains c_nl then (if c.head? == some c_hash then [c_slash, c_slash] else [c_hash]) ++ [c_sp] ++ c ++ [c_nl]
+  else [c_slash, c_star, c_sp] ++ apartMarker c ++ [c_sp, c_star, c_slash, c_nl]
+
 /-- the harness' print callback writes `<name:index>` -/
 def printCbOut (name : Bytes) (i : Nat) : Bytes := [60] ++ name ++ [c_colon] ++ decDigits i ++ [62]
 
@@ -75,7 +92,7 @@ def printOpt (pff : Option (List Bytes)) (indent : Nat) : Opt → Bytes
   | .mk info flags subs vals comment =>
     let o : Opt := .mk info flags subs vals comment
     (match comment with
-     | some c => if flags.comments then indentBytes indent ++ [c_slash, c_star, c_sp] ++ c ++ [c_sp, c_star, c_slash, c_nl] else []
+     | some c => if flags.comments then indentBytes indent ++ printComment c else []
      | none => []) ++
     (if info.ty == .sec then printVals o pff indent vals
      else if info.ty != .func then
